@@ -110,6 +110,14 @@ theorem mkSegs_wfAll : ∀ (l : List Seg) (sh : List Nat),
   | [], _ => rfl
   | c :: r, sh => by simp [mkSegs, Segs.wfAll, mkSegs_wfAll r sh, Bool.and_assoc]
 
+theorem mkBlks_total : ∀ (l : List (List (Int × Int) × Seg)), (mkBlks l).total = l.all (fun e => e.2.total)
+  | [] => rfl
+  | e :: r => by simp [mkBlks, Blks.total, mkBlks_total r]
+
+theorem mkSegs_total : ∀ (l : List Seg), (mkSegs l).total = l.all (fun c => c.total)
+  | [] => rfl
+  | c :: r => by simp [mkSegs, Segs.total, mkSegs_total r]
+
 theorem mkSegs_headShape (c : Seg) (r : List Seg) : (mkSegs (c :: r)).headShape = c.fshape := rfl
 
 theorem mkBlks_leaves : ∀ l : List (List (Int × Int) × Seg), (mkBlks l).leaves = l.flatMap (fun e => e.2.leaves)
